@@ -418,6 +418,88 @@ fn relative_to_checks(s: &mut Sink) {
     }
 }
 
+/// relative_to on values that are NOT exactly representable ratios, including nearly equal
+/// operand / reference bounds (where a numerically careless formula cancels): the returned
+/// bounds must enclose the exact ratios (x-r)/r of the corner members up to 4 ulp of the
+/// ratio, and be attained to the same accuracy.
+fn relative_to_numeric<F: vcheck::Fl>(s: &mut Sink) {
+    use mc::exact::{q, to_f64};
+    let xs: Vec<F> = [0.0, 0.1, 0.3, 1.1, 2.0, 3.0, 3.0 + 4.0 * F::U * 3.0, 3.0 + 64.0 * F::U * 3.0, 7.3, 1e6 + 0.5].iter().map(|&v| F::of(v)).collect();
+    let rs: Vec<F> = [0.1, 0.3, 1.1, 2.0, 3.0, 4.0, 7.3, 1e6].iter().map(|&v| F::of(v)).collect();
+    let mk = |g: &[F]| {
+        let mut v = vec![];
+        for &a in g {
+            for &b in g {
+                if a <= b {
+                    v.push(Interval::TwoSided(a, b));
+                }
+            }
+            v.push(Interval::UpperOneSided(a));
+        }
+        v
+    };
+    let exact = |x: F, r: F| to_f64(&((q(x.f()) - q(r.f())) / q(r.f())));
+    for x in mk(&xs) {
+        for r in mk(&rs) {
+            if x.is_upper() && r.is_upper() {
+                continue;
+            }
+            s.evals += 1;
+            s.calls += 1;
+            let case = json!({"check":"relative_to_numeric","type":F::NAME,"self":format!("{x:?}"),"reference":format!("{r:?}")});
+            let Ok(res) = mc::catch(AssertUnwindSafe(|| x.relative_to(&r))) else {
+                s.violation(format!("relative_to/{}/unexpected-panic", F::NAME), format!("{x:?}.relative_to({r:?})"), case);
+                continue;
+            };
+            // extreme members: smallest ratio = (x_low - r_high)/r_high, largest = (x_high - r_low)/r_low
+            let (xl, xh) = match x {
+                Interval::TwoSided(a, b) => (Some(a), Some(b)),
+                Interval::UpperOneSided(a) => (Some(a), None),
+                Interval::LowerOneSided(b) => (None, Some(b)),
+            };
+            let (rl, rh) = match r {
+                Interval::TwoSided(a, b) => (Some(a), Some(b)),
+                Interval::UpperOneSided(a) => (Some(a), None),
+                Interval::LowerOneSided(b) => (None, Some(b)),
+            };
+            let want_lo = match (xl, rh) {
+                (Some(a), Some(b)) => Some(exact(a, b)),
+                _ => None,
+            };
+            let want_hi = match (xh, rl) {
+                (Some(a), Some(b)) => Some(exact(a, b)),
+                _ => None,
+            };
+            let (glo, ghi) = match res {
+                Interval::TwoSided(a, b) => (Some(a.f()), Some(b.f())),
+                Interval::UpperOneSided(a) => (Some(a.f()), None),
+                Interval::LowerOneSided(b) => (None, Some(b.f())),
+            };
+            s.outcome(&("relnum", F::NAME, kind(&x), kind(&r), kind(&res)));
+            let close = |g: f64, w: f64| (g - w).abs() <= 4.0 * F::U * w.abs() + f64::MIN_POSITIVE;
+            for (name, g, w) in [("low", glo, want_lo), ("high", ghi, want_hi)] {
+                match (g, w) {
+                    (Some(g), Some(w)) => {
+                        s.max(&format!("relative_to_err_ulps[{}]", F::NAME), if w == 0.0 { 0.0 } else { (g - w).abs() / (F::U * w.abs()) }, || format!("{x:?} vs {r:?}"));
+                        if !close(g, w) {
+                            s.violation(
+                                format!("relative_to/{}/{name}-bound-inaccurate", F::NAME),
+                                format!("{x:?}.relative_to({r:?}) = {res:?}: the extreme member ratio (x-r)/r is {w:?} (error {:.1} ulp: not enclosed / not attained)", (g - w).abs() / (F::U * w.abs().max(f64::MIN_POSITIVE))),
+                                case.clone(),
+                            );
+                        }
+                    }
+                    (None, None) => {}
+                    // an unbounded side where a finite extreme exists is sound but not attained;
+                    // a finite bound where the image is unbounded is unsound
+                    (Some(_), None) => s.violation(format!("relative_to/{}/bounded-where-image-unbounded", F::NAME), format!("{x:?}.relative_to({r:?}) = {res:?}"), case.clone()),
+                    (None, Some(_)) => {}
+                }
+            }
+        }
+    }
+}
+
 fn run_everything(tier: Tier, s: &mut Sink) -> (u64, u64) {
     let depth = tier.pick(2, 3);
     let mut st = (0, 0);
@@ -427,12 +509,16 @@ fn run_everything(tier: Tier, s: &mut Sink) -> (u64, u64) {
     st = add(st, run_dom(&dom_i64(), 2, s));
     st = add(st, run_dom(&dom_f32(), 2, s));
     relative_to_checks(s);
+    relative_to_numeric::<f64>(s);
+    relative_to_numeric::<f32>(s);
     st
 }
 
 fn replay_case(case: &Value, s: &mut Sink) {
     if case["check"].as_str().map(|c| c.starts_with("relative_to")).unwrap_or(false) {
         relative_to_checks(s);
+        relative_to_numeric::<f64>(s);
+        relative_to_numeric::<f32>(s);
         return;
     }
     let act: Act = serde_json::from_value(case["act"].clone()).unwrap();
